@@ -257,7 +257,7 @@ PROPS = {
     "C18": {"kind": "cl", "title": "CL03 keys and parameters",
             "level_text": CLTXT + "C18: invariant C18toy (for every pair of safe primes below the bound the accept conditions of random_qr and of the commitment-key bases imply well-formedness); facts about generated keys computed by an independent Miller-Rabin / Jacobi implementation; encodings; random_bits / rand_int."},
     "C19": {"kind": "cl", "title": "CL03 responses mask their secrets",
-            "level_text": CLTXT + "C19: invariant C19masks over the table of blinding lengths for the three suites; for real proofs every response leaf is divided by every recomputable challenge and by every other response and compared with every secret the prover holds (issuance proofs without and with a trusted commitment, the latter also with a short-randomness commitment of the trusted party); implied blindings pairwise distinct; blinding draws of proofs made on fresh threads pairwise distinct."},
+            "level_text": CLTXT + "C19: invariant C19masks over the table of blinding lengths for the three suites (the arithmetic behind the table, MaskLemmas, is discharged for all values by Apalache); for real proofs every response leaf is divided by every recomputable challenge and by every other response and compared with every secret the prover holds (issuance proofs without and with a trusted commitment, the latter also with a short-randomness commitment of the trusted party); implied blindings pairwise distinct; blinding draws of proofs made on fresh threads pairwise distinct."},
     "C12": {"slices": ["update", "shape_sig"], "slices_thorough": ["update_deep"], "traces": "sig", "tally": ["C12", "C02", "C01"], "title": "Signature update over any history",
             "level_text": MC_TEXT + "slice `update`: every history of up to Depth updates at every position with every new value, with correct and wrong old values, out-of-range positions, then verification against the intended current vector and every earlier vector; updated signature octets equal the reference's B(msgs)/(sk+e)."},
 }
@@ -824,6 +824,11 @@ def run_cl_property(prop, tier):
         if r == "violated":
             violations.append({"property": prop, "what": "Apalache: BoudotLemmas!BoudotTolerance is violated (specification level)"})
         unbounded = "BoudotLemmas!BoudotTolerance (tolerance of the repaired range proof below one unit for all E = 2^(t+l), all widths): " + r
+    if prop == "C19":
+        r = apalache_inv("MaskLemmas", "MaskLemmas", "mask")
+        if r == "violated":
+            violations.append({"property": prop, "what": "Apalache: MaskLemmas is violated (specification level)"})
+        unbounded = "MaskLemmas (floor((r + c x) / c) = x + floor(r / c); r >= K c keeps it K away; r < c reveals x) for all values: " + r
     # --- specification level: the bounded slices of MC_cl.tla
     consts = {"Dev": "{}", "MaxN": 2, "Bound": 60 if tier == "quick" else 230}
     rc, out = tlc("MC_cl", cfg_text(consts, init="Init", invariants=spec["inv"]), "%s_cl_%s" % (prop, tier), workers=1, timeout=3000)
